@@ -51,7 +51,7 @@ PROP = {'lean': 'MpsProps.C13',
                'Mps.C13.gen_fork',
                'Mps.C13.gen_sampleScalar',
                'Mps.C13.gen_schChallenge'],
- 'suites': [{'name': 'ot', 'quick': 40, 'thorough': 1500}],
+ 'suites': [{'name': 'ot', 'quick': 40, 'thorough': 1500, 'shards': 8}],
  'propfields': {'ot': ['ok', 'agree', 'rel', 'check', 'choice', 'sum']},
  'level_text': 'Proof: for ALL scalars alpha, beta (any commutative ring; the alteration theorem any integral domain), all choice / noise / extra '
                "bits and ANY hash and PRG outputs: the random OT gives the receiver the sender's pad for its choice bit in any group satisfying the "
